@@ -129,6 +129,8 @@ pub struct World {
     gate: shuttle::sync::Mutex<()>,
     cvs: Vec<shuttle::sync::Condvar>,
     yields: Vec<&'static str>,
+    /// knob "sync_delay" (see SimBackend::sync_point)
+    pub delay_at_sync: bool,
 }
 
 pub static WORLD: OnceLock<World> = OnceLock::new();
@@ -187,7 +189,9 @@ impl World {
             .filter(|t| sc.yields.iter().any(|y| y == t))
             .collect();
         let ncv = CV_BASE + 2 * (nconn + 512);
+        let delay_at_sync = sc.yields.iter().any(|y| y == "sync_delay");
         World {
+            delay_at_sync,
             sc,
             st: StdMutex::new(st),
             gate: shuttle::sync::Mutex::new(()),
@@ -383,12 +387,27 @@ pub fn peer_sockaddr(seed: u64, conn: usize) -> SocketAddr {
 impl Backend for SimBackend {
     fn sync_point(&self) {
         if let Some(w) = WORLD.get() {
+            let mut delay = 0u64;
             if !std::thread::panicking() {
                 let mut st = w.st.lock().unwrap();
                 st.sync_points += 1;
                 st.log("sync", usize::MAX, 0);
+                // knob "sync_delay": now and then a thread is held back for up to 48 scheduling
+                // points right before a synchronisation operation - between two lock acquisitions
+                // (check, then act) the others get far enough to change what was checked
+                if w.delay_at_sync {
+                    let h = mix(w.sc.sched.seed ^ 0xde1a, st.sync_points);
+                    if h % 8 == 0 {
+                        // (a quarter of them long: a thread descheduled for as long as a whole request takes)
+                        delay = if (h >> 20) % 4 == 0 { 200 + (h >> 8) % 400 } else { 1 + (h >> 8) % 48 };
+                        st.reach("thread_held_back_before_a_synchronisation_operation");
+                    }
+                }
             }
             w.flush();
+            for _ in 0..delay {
+                w.switch();
+            }
         }
     }
 
